@@ -46,7 +46,7 @@ namespace AIToolbox::POMDP {
              * @brief Basic constructor.
              *
              * @param nBeliefs The number of beliefs to sample from when building the MDP model.
-             * @param entropyBuckets The number of buckets into which discretize entropy.
+             * @param entropyBuckets The number of buckets into which discretize entropy (at least 1, or std::invalid_argument is thrown).
              */
             AMDP(size_t nBeliefs, size_t entropyBuckets);
 
@@ -61,7 +61,7 @@ namespace AIToolbox::POMDP {
             /**
              * @brief This function sets the new number of buckets in which to discretize the entropy.
              *
-             * @param buckets The new number of buckets.
+             * @param buckets The new number of buckets (at least 1, or std::invalid_argument is thrown and the old number is kept).
              */
             void setEntropyBuckets(size_t buckets);
 
